@@ -18,11 +18,11 @@ class C07(Prop):
     level_text = ("Theorems for every layout and every start: under the line geometry (l complete lines of b bytes / r residues before the target line) seeking to doff + l*b [+ (start-1)%r] and skipping start - actual_start residues delivers the record's residues from residue `start` on, in the residue, line and brute-force addressing cases; "
                   "esl_ssi_FindSubseq's three cases are exactly that arithmetic; absent key => eslENOTFOUND, start outside 1..L => eslERANGE, for every file and index; the tracker's guarantee (every line followed by another terminated line has rpl residues) and two decide-checked counter-examples showing it does NOT bound last lines. "
                   "The executable model of PositionByKey/ByNumber/Fetch/FetchInfo/FetchSubseq/read_nres is tied to the working tree by an exact differential run against a real SSI index built by esl-sfetch's create_ssi_index, all (key,start,end) on small files, and a fetch = slice-of-sequential-scan monitor (incl. esl-sfetch's own subsequence path with reverse complement).")
-    level_note = ("FetchSubseq = slice of the scan is established by the differential run + monitor, not by a theorem about the whole reader. FASTA, EMBL/UniProt, GenBank/DDBJ (accessions as aliases); esl-afetch / Stockholm databases not covered; the SSI file itself is C06. "
+    level_note = ("FetchSubseq = slice of the scan is established by the differential run + monitor, not by a theorem about the whole reader. FASTA, EMBL/UniProt, GenBank/DDBJ (accessions as aliases); esl-afetch / Stockholm databases (1..20 quick, ..50 thorough alignments, names + accessions, prefix names) are covered by the harness + monitor only (real index built by esl-afetch's create_ssi_index, fetched entry = the entry of that name/accession, absent key => eslENOTFOUND), no model; the SSI file itself is C06. "
                   "Known finding (genuine defect, repair not small): seebuf's bpl/rpl tracker accepts a last/only line longer than rpl, FetchSubseq then returns other residues with eslOK - witnesses in known_findings.d/C07.json, theorem carried as bplrpl_sound_partial + bplrpl_unsound_*.")
     assumptions = ["the SSI index returns what create_ssi_index stored (C06)", "fread returns min(B, remaining) bytes; allocation never fails",
                    "the model mirrors esl_sqio_ascii.c / esl_ssi_FindSubseq by hand; fidelity is checked by the differential run only",
-                   "esl-afetch and esl_msafile_PositionByKey (alignment databases) are outside the model and the harness"]
+                   "esl-afetch / esl_msafile_PositionByKey (alignment databases) are outside the model: harness + monitor only"]
     technique = ("Lean 4 proofs (offset arithmetic of esl_ssi_FindSubseq in its three addressing cases, soundness/unsoundness of the bytes/residues-per-line tracker, error cases) "
                  "+ exact differential correspondence of the executable model of PositionByKey/ByNumber/Fetch/FetchInfo/FetchSubseq/read_nres with the ASan/UBSan build, "
                  "against a real SSI index built by esl-sfetch's create_ssi_index, + fetch = slice-of-scan monitors")
@@ -134,12 +134,16 @@ class C07(Prop):
                     ops.append(rng.choice(["fetchsub key=%s s=1 e=1", "fetch key=%s", "poskey key=%s", "fetchinfo key=%s"]) % hx(nm.encode()))
             ops.append("close")
             out.append({"name": "gen%d" % c, "ops": ops, "sticky": 1, "meta": {"kind": kind, "geom": meta["geom"]}})
+        for c in range(40 if ctx.tier == "quick" else 600):
+            out.append(S.afetch_case(rng, ctx.tier, c))
         return out
 
     def nontrivial(self, case, out):
-        return any(l.startswith("ok name=") and op.startswith(("fetchsub", "fetch ")) for op, l in zip(case["ops"], out))
+        return any((l.startswith("ok name=") and op.startswith(("fetchsub", "fetch "))) or l.startswith("ok nali=") for op, l in zip(case["ops"], out))
 
     def monitor(self, ctx, case, out):
+        if (case.get("meta") or {}).get("afetch"):
+            return S.monitor_afetch(case, out)
         return S.keyed("C07", case, out, S._monitor_c07)
 
     def extra_evidence(self, ctx):
